@@ -187,7 +187,15 @@ def locking(obs, chain, emit, dts, starts, cover=None):
             prev_held = False
         else:
             D_f = pwm[k - 1]
-            Tm_prev = m['torque'][k - 1]
+            # the motor's net torque at the previous instant, recomputed by the reference from the recorded speed, duty
+            # cycle and external load (not taken from the recorded torque: a wrong recorded torque must not steer the oracle)
+            Tl_m = last['load torque'][k - 1]
+            for i in range(n - 1, 0, -1):
+                Tl_m = Tl_m / chain.etas[i] / chain.ratios[i]
+            Tm_prev = chain.motor_torque(pwm[k - 1], m['angular speed'][k - 1]) - Tl_m
+            if not _close(Tm_prev, m['torque'][k - 1], chain.Tmax * 1e-6 + abs(Tl_m) * 1e-9):
+                emit('motor-net-torque', 'motor net torque at a recorded instant = characteristic(recorded speed, duty) - reflected load', k - 1,
+                     {'recorded': m['torque'][k - 1], 'reference': Tm_prev, 'D': pwm[k - 1], 'w_motor': m['angular speed'][k - 1]})
             w_pre = (last['angular speed'][k - 1]
                      + last['angular acceleration'][k - 1] * dts[k]) * chain.up[0]
         w_m = m['angular speed'][k]
